@@ -20,6 +20,8 @@ def rx(e):
         return '"%s"' % e[1]
     if k == "v":
         return e[1]
+    if k == "nil":
+        return "nil"
     if k in ("+", "*"):
         return "(%s %s %s)" % (rx(e[1]), k, rx(e[2]))
     if k == "%":
@@ -45,7 +47,7 @@ def rx(e):
     raise ValueError(e)
 
 
-TYPES = {"int": "int", "str": "str", "list": "[int...]", "opt": "int?", "fn1": "fn(int) -> int",
+TYPES = {"int": "int", "str": "str", "list": "[int...]", "opt": "int?", "optn": "int?", "fn1": "fn(int) -> int",
          "fnlist": "[fn(int) -> int...]"}
 
 
@@ -65,7 +67,7 @@ def render_block(stmts, em):
         if k == "print":
             em.code("print %s" % rx(s[1]))
         elif k == "decl":
-            if s[2] in ("list", "opt", "fnlist"):
+            if s[2] in ("list", "opt", "optn", "fnlist"):
                 em.code("%s: %s = %s" % (s[1], TYPES[s[2]], rx_init(s)))
             else:
                 em.code("%s = %s" % (s[1], rx(s[3])))
@@ -132,6 +134,8 @@ def render_block(stmts, em):
             em.code("%s: [int...] = [%s, 1]" % (s[1], rx(s[2])))
         elif k == "optset":
             em.code("%s ?= %s" % (s[1], rx(s[2])))
+        elif k == "tblset":
+            em.code("tbl[%d] = %s" % (s[1], rx(s[2])))
         elif k == "class":
             # class with a method used as closure-creation context
             em.code("class %s {" % s[1])
@@ -245,6 +249,8 @@ class Model:
         k = e[0]
         if k == "i" or k == "s":
             return e[1]
+        if k == "nil":
+            return None
         if k == "v":
             return fr.cell(e[1]).v
         if k == "+":
@@ -377,6 +383,8 @@ class Model:
             self.declare(fr, s[1], [self.ev(s[2], fr), 1])
         elif k == "optset":
             fr.cell(s[1]).v = self.ev(s[2], fr)
+        elif k == "tblset":
+            fr.cell("tbl").v[s[1]] = self.ev(s[2], fr)
         elif k == "class":
             self.classes[s[1]] = (s[2], s[3], fr.snapshot())
         elif k == "new":
@@ -506,6 +514,9 @@ def free_names(params, body):
                 continue
             elif k == "retfn":
                 used.add(s[1])
+            elif k == "tblset":
+                used.add("tbl")
+                names_in_expr(s[2], used)
             elif k == "repeat":
                 used.add(s[1])
             elif k == "mapcall":
@@ -586,6 +597,8 @@ class Gen:
                 choices.append(("slen", 1))
             if self.of_type(sc, "opt"):
                 choices += [("get", 2), ("or", 2)]
+            if self.of_type(sc, "optn"):
+                choices += [("orn", 3)]
             if self.of_type(sc, "fn1") and depth < 1:
                 choices.append(("call", 2))
         k = rng.weighted(choices)
@@ -613,6 +626,9 @@ class Gen:
             return ["get", rng.choice(self.of_type(sc, "opt"))]
         if k == "or":
             return ["or", rng.choice(self.of_type(sc, "opt")), self.int_expr(sc, depth + 1)]
+        if k == "orn":
+            # an optional that may hold nil is only ever read through `or`
+            return ["or", rng.choice(self.of_type(sc, "optn")), self.int_expr(sc, depth + 1)]
         if k == "call":
             return ["call", rng.choice(self.of_type(sc, "fn1")), [self.int_expr(sc, depth + 1)]]
         raise ValueError(k)
@@ -641,7 +657,16 @@ class Gen:
             choices.append(("opadd", 3))
         if lists:
             choices.append(("push", 2))
+        if own_i:
+            choices.append(("setraw", 1))
+        if cap_i:
+            choices.append(("modraw", 2))
         k = rng.weighted(choices)
+        if k == "setraw":
+            # the right-hand side is a bare element read: the VALUE is stored, the variable does not follow later writes to the element
+            return ["set", rng.choice(own_i), ["tbl", self.int_expr(sc, 1)]]
+        if k == "modraw":
+            return ["mod", rng.choice(cap_i), ["tbl", self.int_expr(sc, 1)]]
         if k == "print":
             if rng.chance(1, 3) and self.of_type(sc, "str"):
                 return ["print", ["cat", ["v", rng.choice(self.of_type(sc, "str"))], self.int_expr(sc, 1)]]
@@ -677,6 +702,9 @@ class Gen:
                 forms.append(("shadow", 2))
             if self.of_type(sc, "opt", own_only=True):
                 forms.append(("optset", 1))
+            forms.append(("optndecl", 1))
+            if self.of_type(sc, "optn", own_only=True):
+                forms.append(("optnset", 2))
             if allow_nested and depth < 3:
                 forms.append(("nested", 3))
             if self.of_type(sc, "fnlist", own_only=True) is not None and depth < 3 and allow_nested:
@@ -718,6 +746,15 @@ class Gen:
                 sc.own[n] = "opt"
             elif k == "optset":
                 stmts.append(["optset", rng.choice(self.of_type(sc, "opt", own_only=True)), self.bounded(self.int_expr(sc, 1))])
+            elif k == "optndecl":
+                n = self.name("on")
+                stmts.append(["decl", n, "optn", ["nil"] if rng.chance(1, 2) else self.int_expr(sc, 1)])
+                sc.own[n] = "optn"
+            elif k == "optnset":
+                # the owner re-assigns its optional, to nil or to a value, after inner closures may have captured it
+                # (`x ?= nil` with a literal nil does not type-check: the nil comes out of a module-level optional)
+                stmts.append(["optset", rng.choice(self.of_type(sc, "optn", own_only=True)),
+                              ["call", "feed", [["i", 5]]] if rng.chance(1, 2) else self.bounded(self.int_expr(sc, 1))])
             elif k == "shadow":
                 n = rng.choice(cap_i)
                 stmts.append(["shadow", n, self.bounded(self.int_expr(sc, 1))])
@@ -787,12 +824,17 @@ def generate(rng, max_ops=12):
     # prologue: fixed helpers
     prog.append(["decl", "tbl", "list", [["i", 5], ["i", 6], ["i", 7]]])
     prog.append(["def", "idf", [["a", "int"]], "int", [["ret", ["+", ["v", "a"], ["i", 1]]]]])
+    # (`x ?= nil` with a literal nil, or with a variable the compiler knows to be nil, does not type-check: the nil comes
+    # out of a function with two return paths)
+    prog.append(["def", "feed", [["k", "int"]], "optn",
+                 [["if", ["cmp", "<", ["v", "k"], ["i", 2]], [["ret", ["*", ["+", ["v", "k"], ["i", 1]], ["i", 10]]]], []], ["ret", ["nil"]]]])
     top.own["tbl"] = "list_const"
     top.own["idf"] = "helper"
+    top.own["feed"] = "helper"
     # module-level variables
     nv = rng.range(1, 3)
     for i in range(nv):
-        t = rng.weighted([("int", 5), ("str", 2), ("list", 2), ("opt", 1)])
+        t = rng.weighted([("int", 5), ("str", 2), ("list", 2), ("opt", 1), ("optn", 2)])
         n = g.name("g")
         if t == "int":
             prog.append(["decl", n, "int", ["i", rng.range(0, 9)]])
@@ -800,6 +842,8 @@ def generate(rng, max_ops=12):
             prog.append(["decl", n, "str", ["s", rng.choice(["a", "bc", "é"])]])
         elif t == "list":
             prog.append(["decl", n, "list", [["i", rng.range(0, 9)] for _ in range(rng.range(1, 3))]])
+        elif t == "optn":
+            prog.append(["decl", n, "optn", ["nil"] if rng.chance(1, 2) else ["i", rng.range(0, 9)]])
         else:
             prog.append(["decl", n, "opt", ["i", rng.range(0, 9)]])
         top.own[n] = t
@@ -879,7 +923,20 @@ def generate(rng, max_ops=12):
             choices.append(("pushlist", 1))
         if g.of_type(top, "str"):
             choices.append(("assign_s", 1))
+        choices.append(("tblset", 2))
+        if g.of_type(top, "optn"):
+            choices.append(("assign_optn", 3))
         k = rng.weighted(choices)
+        if k == "tblset":
+            # an element of the table changes: variables that were assigned from it keep their values
+            prog.append(["tblset", rng.below(3), ["i", rng.range(0, 9)]])
+            continue
+        if k == "assign_optn":
+            n = rng.choice(g.of_type(top, "optn"))
+            rhs = ["nil"] if rng.chance(1, 2) else ["i", rng.range(0, 9)]
+            # (a plain `g = nil` does not type-check)
+            prog.append(["optset", n, ["call", "feed", [["i", 5]]] if rhs == ["nil"] else rhs] if (rhs == ["nil"] or rng.chance(2, 3)) else ["set", n, rhs])
+            continue
         if k == "call":
             f = rng.choice(fns)
             if rng.chance(1, 4):
@@ -940,7 +997,7 @@ def generate(rng, max_ops=12):
             top.own[n] = "fnlist"
     # final observation of all module-level data variables
     for n, t in sorted(top.own.items()):
-        if t in ("int", "str", "list", "opt") and n != "tbl":
+        if t in ("int", "str", "list", "opt", "optn") and n != "tbl":
             prog.append(["print", ["v", n]])
     return {"prog": prog}
 
@@ -962,7 +1019,7 @@ def render(spec):
     prog = list(spec["prog"])
     if uses_app(prog):
         # insert the applier after the prologue
-        prog.insert(2, APP)
+        prog.insert(3, APP)
     em = Emitter()
     render_block(prog, em)
     m = Model()
@@ -977,10 +1034,12 @@ def render(spec):
 
 def shrink(spec):
     prog = spec["prog"]
-    for i in range(len(prog) - 1, 1, -1):
+    for i in range(len(prog) - 1, 2, -1):
         yield {"prog": prog[:i] + prog[i + 1:]}
     # shrink inside function bodies
     for i, s in enumerate(prog):
+        if i < 3:
+            continue      # the prologue helpers stay as they are
         if s[0] == "def" and len(s[4]) > 1:
             for j in range(len(s[4]) - 1):
                 c = list(s)
